@@ -28,7 +28,7 @@ PROPS = {
     "C02": dict(GLUE, prop_file="props/C02.v", generators=ENG + ["T-blocks"], module="harness.p_dyn",
                 slice="Blocks.v trees vs NumPy step and CasADi functions (the values the balance is about)",
                 trusted=DYN_TRUST + ["C02's balances are stated on Spec.v values; model_conserves composes them with C01 for the regenerated engines"]),
-    "C03": dict(GLUE, prop_file="props/C03.v", generators=ENG + ["T-blocks"], module="harness.p_dyn",
+    "C03": dict(extra_prop_files=GLUE["extra_prop_files"] + INITV, prop_file="props/C03.v", generators=ENG + ["T-blocks", "T-initvars"], module="harness.p_dyn",
                 slice="Blocks.v trees (np, cs) vs NumPy/SX/MX; ToFunction.v arguments+result trees vs the compiled function",
                 trusted=DYN_TRUST + ["Paramcoq only produces the term network_step_R; it is type-checked by the kernel",
                                      "ToFunction.v (hand-written model of to_function; tied by the compile correspondence)",
@@ -90,7 +90,7 @@ PROPS = {
     "C17": dict(GLUE, prop_file="props/C17.v", generators=ENG + ["T-blocks"], module="harness.p_dyn",
                 slice="generated origin primitives (trees) vs both engines; Blocks.v trees vs NumPy/CasADi at corner states",
                 trusted=DYN_TRUST),
-    "C18": dict(GLUE, prop_file="props/C18.v", generators=ENG + ["T-blocks"], module="harness.p_dyn",
+    "C18": dict(extra_prop_files=GLUE["extra_prop_files"] + INITV, prop_file="props/C18.v", generators=ENG + ["T-blocks", "T-initvars"], module="harness.p_dyn",
                 slice="generated primitives (trees) vs both engines; Blocks.v trees vs NumPy/CasADi; paired controlled/plain networks",
                 trusted=DYN_TRUST + ["literal IEEE inf controls are exercised dynamically only"]),
     "C15": dict(prop_file="props/C15.v", generators=ENG, module="harness.p_prims",
